@@ -1,7 +1,7 @@
 (* Properties_C09.v — RingBuffer never destroys, duplicates or abandons an element wrongly.
    Only statements, each closed by [exact <lemma of RingProofs>], and Print Assumptions. *)
 From Coq Require Import List ZArith Bool Lia Permutation.
-From Tulz Require Import Common RingModel RingInv RingProofs RingAliasProofs.
+From Tulz Require Import Common RingModel RingInv RingProofs RingAliasProofs RingReach.
 Import ListNotations.
 Local Open Scope Z_scope.
 
@@ -52,6 +52,14 @@ Theorem C09_destroy_events : forall (V : Type) (r : ring V),
   wf0 r -> forallb ev_ok (destroy r) = true /\ removed (destroy r) = items r.
 Proof. exact @destroy_events. Qed.
 Print Assumptions C09_destroy_events.
+
+(* ... at every point of every history: whatever a buffer variable holds after the history, its destructor destroys
+   exactly the elements it holds, each once, and touches nothing that is not an element *)
+Theorem C09_reachable_destroy : forall ow ops b r,
+  env_get (ring_run fixed_variant ow env0 ops) b = Some r ->
+  forallb (@ev_ok Z) (destroy r) = true /\ removed (destroy r) = items r.
+Proof. exact ring_reachable_destroy. Qed.
+Print Assumptions C09_reachable_destroy.
 
 (* The pinned upstream code (variant: physical destructor index in resize, copy assignment
    that does not release) violates the property; kernel-checked witnesses, which are the
